@@ -121,3 +121,38 @@ def _x_tdm_check(case):
 
 base.register(base.Family("tdm_x", ["C15"], _x_tdm_cases, _x_tdm_check, weight=0.15, bound="6 look-alike names",
                           rule="tdm program with one real p-array and one array whose name merely starts with p<digits>"))
+
+
+def _x_rt_cases(rng, n, tier):
+    """C01: symbolic values whose SymPy form prints differently from Blackbird syntax (negated powers, imaginary unit, reciprocal powers),
+    for template parameters and measured registers, positional / keyword / list; strings that look like p-array names"""
+    from . import fam_prog as FP  # noqa
+    names = ["a", "ab", "e", "p", "x1", "Theta", "E1"]
+    for i in range(n):
+        a, b = rng.sample(names, 2)
+        k, c = rng.randint(2, 4), rng.randint(2, 9)
+        shapes = [
+            ("neg-power", "G(0-{%s}**%d) | 0" % (a, k)),
+            ("neg-power-product", "G(%d-2*{%s}**%d*{%s}, x=0-{%s}**2) | 0" % (c, a, k, b, b)),
+            ("neg-power-list", "G(y=[1, 0-{%s}**%d, {%s}]) | 0" % (a, k, b)),
+            ("imaginary-coefficient", "G(%dj*{%s}, x=(1+2j)*{%s}) | 0" % (c, a, b)),
+            ("reciprocal-power", "G(%d/{%s}**%d, {%s}**0.5*{%s}) | 0" % (c, a, k, a, b)),
+            ("float-exponent-notation", "G(1e-07*{%s}, 2.5e+22*{%s}) | 0" % (a, b)),
+            ("pi-and-p", "G(pi*{p}/4, {p}*pi**2) | 0"),
+            ("regref-neg-power", "MeasureX | 0\nMeasureX | 1\nG(0-q0**%d, x=1-q1**2*q0, y=[0-q1**3]) | 2" % k),
+        ]
+        cls, body = shapes[i % len(shapes)]
+        yield {"class": "sympy-print/" + cls, "input": {"script": "name t\nversion 1.0\n\n%s\n" % body}}
+    for i in range(max(2, n // 8)):
+        nm = ["p7", "p0", "p12"][i % 3]
+        yield {"class": "tdm-string-looks-like-p-name", "input": {"script": "name t\nversion 1.0\ntype tdm (temporal_modes=2)\n\nint array p1 =\n    1, 2\n\n"
+                                                                      "G(\"%s\", p1, tag=\"%s\") | 0\n" % (nm, nm)}}
+
+
+def _x_rt_check(case):
+    from . import fam_prog as FP
+    return FP.rt_check(case)
+
+
+base.register(base.Family("roundtrip_x", ["C01", "C09", "C15"], _x_rt_cases, _x_rt_check, weight=0.25, bound="9 shapes x random names",
+                          rule="see docstring; oracle of roundtrip (3 generations, equal up to float printing)"))
